@@ -24,12 +24,18 @@ class SymRange:
 
 
 class LazySeq:
-    """symbolic-length sequence: length term + element function"""
+    """symbolic-length sequence: length term + element function (+ concretely appended tail)"""
 
     def __init__(self, length, elem, name='seq'):
         self.length = length
         self.elem = elem
         self.name = name
+        self.tail = []
+
+    def total_len(self):
+        if not self.tail:
+            return self.length
+        return simp(zint(self.length) + len(self.tail))
 
     def iterate(self, it):
         k = 0
@@ -260,7 +266,7 @@ def b_len(it, x):
     if isinstance(x, (list, tuple, dict, set, bytes, bytearray, memoryview, range, frozenset)):
         return len(x)
     if isinstance(x, LazySeq):
-        return x.length
+        return x.total_len()
     if isinstance(x, SymDict):
         return len(x.items)
     if x is None or is_intlike(x):
@@ -1075,6 +1081,12 @@ def call_method(it, v, name, args, kwargs):
         if name == 'get':
             return v.get(it, *args)
         raise Unsupported("SymDict.%s" % name)
+    if isinstance(v, LazySeq):
+        if name == 'append':
+            it.note_write(v, None, "list.append")
+            v.tail.append(args[0])
+            return None
+        raise Unsupported("list.%s on a symbolic-length list" % name)
     if is_intlike(v):
         if name == 'to_bytes':
             return int_to_bytes(it, v, *args, **kwargs)
